@@ -174,7 +174,8 @@ func (v *SliceSchema) process(ctx *p.SchemaCtx) {
 
 	if isZeroVal {
 		if v.defaultVal != nil {
-			refVal = reflect.ValueOf(v.defaultVal)
+			// the items are read from a copy of the default: an item schema may keep what it is given (i.e a custom schema of a slice type)
+			refVal = p.DeepCopyValue(reflect.ValueOf(v.defaultVal))
 		} else if v.required == nil {
 			return
 		} else {
